@@ -164,6 +164,13 @@ def gen_cases(tier: str, seed: int) -> List[Dict]:
                 sp["slots"] = [[abs(x) if not isinstance(x, str) else x for x in col] for col in sp["slots"]]
             n += 1
             cases.append({"id": "%s-%03d-pair-%s" % (PROP, n, dt), "op": "compare", "operands": [a, b], "options": rng.choice(settings), "limits": lim})
+    # operands whose names are stored in non-index order (leaves of numpoly.symbols("q1 q0")): the documented order is by name
+    for opt in settings:
+        for names, exps in [(("q1", "q0"), [[1, 0], [0, 1], [0, 0]]), (("q2", "q0", "q1"), [[1, 0, 0], [0, 1, 0], [0, 0, 1]]), (("q10", "q2"), [[1, 0], [0, 1], [1, 1]])]:
+            a = S.make_poly_spec("a", names, exps, (), rng, 2, mode="raw", zero_prob=0.1, literal_prob=0.3)
+            b = S.make_poly_spec("b", names, exps, (), rng, 2, mode="raw", zero_prob=0.1, literal_prob=0.3)
+            n += 1
+            cases.append({"id": "%s-%03d-pair-unsortednames" % (PROP, n), "op": "compare", "operands": [a, b], "options": opt, "limits": lim})
     # constants order as numbers; poly vs number
     for opt in settings[:2]:
         a = S.make_poly_spec("a", ("q0",), [[0]], (2,), rng, 2, mode="raw")
